@@ -49,4 +49,9 @@ def replay_finding_sched(ctx, f):
 
 
 def replay_finding(ctx, f):
+    if f.get("script"):  # scripted history judged by the same oracle (F24)
+        import os
+        from lib import vlib
+        c = l2common.run_script(ctx, os.path.join(vlib.VERIF, f["script"]))
+        return any(v["kind"] == f.get("trigger") for v in gcoracle.c17_oracle(c))
     return replay_finding_sched(ctx, f)
